@@ -44,6 +44,46 @@ def loc_eq(u, v, a, b, c, d, e, f, g, h):
     return (x == y) == want and (x != y) == (not want)
 
 
+def _all_ops(x, y):
+    for f in OPS.values():
+        try:
+            f(x, y)
+        except TypeError:
+            pass
+
+
+def op_agrees_after_assignment(op, a, b, c, d, e, f, which):
+    """the objects are mutable: compare once, assign new line/character to one operand, compare again -
+    the answer has to follow the current (line, character) pairs, not those seen by an earlier comparison"""
+    x, y = P(a, b), P(c, d)
+    _all_ops(x, y)
+    hash_probe = (x == y)  # noqa: F841  (a second use, so a memo keyed on first use would already be filled)
+    t = x if which == 0 else y
+    t.line = e
+    t.character = f
+    g = OPS[op]
+    r = g(x, y)
+    want = g((e, f), (c, d)) if which == 0 else g((a, b), (e, f))
+    return (r is True or r is False) and r == want
+
+
+def container_eq_after_assignment(k, a, b, c, d, e, f, which):
+    """Range / Location equality follows the components' current values after a nested assignment"""
+    x = R(a, b, c, d) if k == 1 else Loc("u", a, b, c, d)
+    y = R(a, b, c, d) if k == 1 else Loc("u", a, b, c, d)
+    first = (x == y) and not (x != y)
+    rng = x if k == 1 else x.range
+    t = rng.start if which == 0 else rng.end
+    t.line = e
+    t.character = f
+    want = ((e, f) == (a, b)) if which == 0 else ((e, f) == (c, d))
+    second = ((x == y) == want) and ((x != y) == (not want)) and ((y == x) == want)
+    # and back again
+    t.line, t.character = (a, b) if which == 0 else (c, d)
+    third = (x == y) and not (x != y)
+    return first and second and third
+
+
 def subject(k, a, b):
     return [P(a, b), R(a, b, a, b), Loc("u", a, b, a, b)][k]
 
